@@ -815,6 +815,22 @@ def r199(ctx):
         if isinstance(st, ast.Assign) and isinstance(st.targets[0], ast.Name) and isinstance(st.value, ast.Constant) and isinstance(st.value.value, int):
             cnt = (st.targets[0].id, st.value.value, st)
     if cnt is None:
+        # no frame counter: is the frame addressed by a computed offset instead?
+        from ..flow import flow_of as _fo
+        rfl = _fo(rt)
+        seeks = [x for x in walk_local(rt) if isinstance(x, ast.Call) and isinstance(x.func, ast.Attribute) and x.func.attr == "seek" and x.args]
+        hit = None
+        for sk in seeks:
+            names = {n_.id for n_ in ast.walk(sk.args[0]) if isinstance(n_, ast.Name)}
+            for kind, node, at, extra in [x for a_ in ast.walk(sk.args[0]) if isinstance(a_, ast.Name) for x in rfl.sources(a_, rfl.cfg.node_of(sk))]:
+                if kind == "param" and extra == ip:
+                    names.add(ip)
+            if ip in names:
+                hit = sk
+        if hit is not None:
+            ctx.bad(rid, hit, f"read_trr_frame jumps to frame `{ip}` with `{short(hit, 60)}`: the offset is computed from the size of one frame, but every TRR frame carries its own x/v/f sizes (positions, velocities and forces are written at different intervals; the last frame may lack velocities), so frames of one file differ in size: the jump lands inside a frame and another frame (or garbage) is returned",
+                    construct="read_trr_frame: seek to a computed frame offset")
+            return
         raise AnalysisError("R-19.9: frame counter of read_trr_frame not found")
     cname, c0, cst = cnt
     cfg = cfg_of(rt)
@@ -859,6 +875,7 @@ def run(ctx):
 
 
 VARIANTS = [
+    B("c19-trr-frame-by-computed-offset", GROMACS, '    idx = 0\n    with open(filename, "rb") as infile:\n        while True:\n            try:\n                header, _ = read_trr_header(infile)\n                if idx == index:\n                    data = read_trr_data(infile, header)\n                    return header, data\n                skip_trr_data(infile, header)\n                idx += 1\n                if idx > index:\n                    logger.error("Frame %i not found in %s", index, filename)\n                    return None, None\n            except EOFError:\n                return None, None\n', '    with open(filename, "rb") as infile:\n        try:\n            header, header_size = read_trr_header(infile)\n            if index > 0:\n                data_size = sum(header[key] for key in TRR_DATA_ITEMS)\n                infile.seek(index * (header_size + data_size))\n                header, _ = read_trr_header(infile)\n            data = read_trr_data(infile, header)\n            return header, data\n        except EOFError:\n            return None, None\n', "R-19.9", why="seeded C19_f"),
     B("c19-template-regex-greedy", ENGBASE, '        reg = re.compile(rf"(.*?){delim}")\n        written = set()', '        reg = re.compile(rf"(.*){re.escape(delim)}")\n        written = set()', "R-19.10", control=True, why="seeded C19_d"),
     K("c19-keep-template-regex-escaped", ENGBASE, 'reg = re.compile(rf"(.*?){delim}")', 'reg = re.compile(rf"(.*?){re.escape(delim)}")', count=2),
     B("c19-cp2k-extract-off-by-one", CP2K, "        for i, snapshot in enumerate(read_xyz_file(traj_file)):\n            if i == idx:\n                box, xyz, vel, names = convert_snapshot(snapshot)\n                if os.path.isfile(out_file):\n                    logger.debug(\"CP2K will overwrite", "        for i, snapshot in enumerate(read_xyz_file(traj_file), 1):\n            if i == idx:\n                box, xyz, vel, names = convert_snapshot(snapshot)\n                if os.path.isfile(out_file):\n                    logger.debug(\"CP2K will overwrite", "R-19.9", control=True),
